@@ -87,7 +87,7 @@ def op_strategy(draw, style):
     elif kind == "insert_entry":
         op.update(a=draw(st.one_of(lat, lat, st.sampled_from([0.0, 0.125]))), b=draw(st.one_of(lat, lat, st.sampled_from([20.0, 40.0]))), label=draw(st.sampled_from(["n", " n ", "", "m\n", "x"])),
                   mode=draw(st.sampled_from(["error", "error", "error", "replace", "merge", "merge", "replace", "bogus"])),
-                  report=draw(st.sampled_from(["silence", "warning", "silence", "warning", "bogus"])),
+                  report=draw(st.sampled_from(["silence", "warning", "silence", "warning", "bogus", "error"])),  # 'error' is accepted by the option check although the signature documents silence|warning only
                   form=draw(st.sampled_from(["obj", "tuple", "list"])))
         op.update(near=draw(st.one_of(st.none(), st.none(), st.none(), st.integers(0, 7))), near_k=draw(st.integers(0, 5)))
     elif kind == "new":
